@@ -51,6 +51,14 @@ func gen(r *h.Rand, tier string, emit func([]string)) {
 	if tier == "thorough" {
 		cases = 3000
 	}
+	// exhaustive key-length boundary sweep (always, both tiers): one case per field-key length
+	for L := 1; L <= 8; L++ {
+		var ops []string
+		for _, l := range lp.KeyBoundaryLines(L) {
+			ops = append(ops, "pp ns 1600000000123456789 "+h.HexS(l))
+		}
+		emit(ops)
+	}
 	for c := 0; c < cases; c++ {
 		var ops []string
 		for i := 0; i < 60; i++ {
